@@ -550,3 +550,244 @@ theorem fetch_below {env : MEnv} (hwf : C11.WF env = true) (hc : classesOK env =
         exact .inr ⟨k, e, hf, by rw [hadv, h1, advT_nil]⟩
 
 end Glom.Mut
+
+namespace Glom.Mut
+open Glom
+
+theorem hasStar_cons {s : Step} {rest : List Step} (h : hasStar (s :: rest) = false) :
+    s.1 ≠ "x" ∧ s.1 ≠ "X" ∧ hasStar rest = false := by
+  simp only [hasStar, List.any_cons, Bool.or_eq_false_iff, beq_eq_false_iff_ne, ne_eq] at h
+  exact ⟨h.1.1, h.1.2, by simpa [hasStar] using h.2⟩
+
+/-- **`_t_eval` addresses exactly the objects of the reference walk**: on success a nested result
+    of depth `stars steps` whose leaves are `matchesOf` in order; a failure before the first
+    wildcard is a PathAccessError with the index of the failing segment. -/
+theorem fetch_spec {env : MEnv} (hwf : C11.WF env = true) (hc : classesOK env = true) (h : Heap) :
+    ∀ (steps : List Step), wfStar steps = true →
+    (hasStar steps = false ∨ ∀ c, isScope env h c = false) →
+    ∀ (k : Nat) (cur : Val),
+    match matchesOf env h steps k cur with
+    | .ok ds => ∃ nest, fetch env h steps k cur = .ok nest ∧ nest.uniform (stars steps) = true ∧
+        nest.leaves = ds
+    | .fail k' e _ => fetch env h steps k cur = .error (.pae k' e)
+    | .unreg => False
+    | .unsupported => False := by
+  obtain ⟨hwf1, hx, _, _, _, _⟩ := C11.WF_parts hwf
+  intro steps
+  induction steps with
+  | nil => intro _ _ k cur; exact ⟨.leaf cur, rfl, by simp [stars, Nest.uniform], by simp [Nest.leaves]⟩
+  | cons s r ih =>
+    obtain ⟨op, arg⟩ := s
+    intro hw hns k cur
+    simp only [wfStar, Bool.and_eq_true, Bool.or_eq_true, beq_iff_eq] at hw
+    by_cases hxo : op = "x"
+    · subst hxo
+      have hsc : ∀ c, isScope env h c = false := by
+        rcases hns with h1 | h1
+        · simp [hasStar] at h1
+        · exact h1
+      obtain ⟨ns, hns', hu, hl⟩ := collect_spec env h r (fun c' => fetch env h r 0 c') (children env h cur)
+        (fun c' _ => fetch_below hwf hc h hsc r hw.2 0 c')
+      simp only [matchesOf, beq_self_eq_true, if_true, hsc cur, Bool.false_eq_true, if_false,
+        advance_eq hc h r _ hw.2]
+      refine ⟨.node ns, ?_, ?_, ?_⟩
+      · rw [fetch_star_eq hx h arg r k cur (hsc cur), hns']
+      · rw [stars_cons_x]; simpa [Nest.uniform] using hu
+      · simp only [Nest.leaves, hl]; exact (advT_flatMap env h r _).symm
+    · have hws : C01.wfSteps [(op, arg)] = true := by
+        rcases hw.1 with h1 | h1
+        · exact absurd h1 hxo
+        · exact h1
+      obtain ⟨r', hr, hf⟩ := fetch_access hwf1 hc h op arg r k cur hws
+      have hop := (wfSteps_op hws).1
+      have hopb : (op == "." || op == "[" || op == "P") = true := by
+        rcases hop with rfl | rfl | rfl <;> simp
+      have hns2 : hasStar r = false ∨ ∀ c, isScope env h c = false := by
+        rcases hns with h1 | h1
+        · exact .inl (hasStar_cons h1).2.2
+        · exact .inr h1
+      simp only [matchesOf, hxo, beq_iff_eq, if_false, hopb, if_true, hr]
+      cases r' with
+      | ok v =>
+        simp only [hf, stars_cons_acc (arg := arg) r hxo (wfSteps_op hws).2.2]
+        exact ih hw.2 hns2 (k + 1) v
+      | error e => simpa using hf
+
+end Glom.Mut
+
+namespace Glom.C11
+open Glom Glom.Mut
+
+/-! ### Part D: the `missing` recursion builds exactly `buildTail` -/
+
+def emptyObj : Obj → Bool
+  | .dict _ [] | .list _ [] | .tuple _ [] | .inst _ [] => true
+  | _ => false
+
+theorem freshObj_empty {kind o} (h : freshObj kind = some o) : emptyObj o = true := by
+  unfold freshObj at h
+  repeat' split at h
+  all_goals first
+    | contradiction
+    | (injection h with h; subst h; rfl)
+
+/-- the state after a factory call that returned `o` -/
+def allocSt (st : St) (o : Obj) : St :=
+  { st with calls := st.calls + 1, heap := st.heap ++ [o],
+            log := st.log ++ [.alloc st.heap.length], made := st.made ++ [st.heap.length] }
+
+theorem callFactory_eq (kind : String) (st : St) :
+    callFactory kind st =
+      match freshObj kind with
+      | some o => (allocSt st o, .ok (.ref st.heap.length))
+      | none => ({ st with calls := st.calls + 1 }, .error (.raised (exc "RuntimeError"))) := by
+  unfold callFactory freshObj allocSt
+  repeat' split
+  all_goals first | rfl | simp_all
+
+theorem pyIndex_nil {α} (i : Int) : pyIndex ([] : List α) i = none := by
+  unfold pyIndex
+  simp only [List.length_nil, Int.natCast_zero, Int.add_zero]
+  split <;> simp_all
+
+theorem pyGetattr_empty {h : Heap} {a : Nat} {o : Obj} (ha : h[a]? = some o) (ho : emptyObj o = true)
+    (name : Val) : ∃ e, pyGetattr h (.ref a) name = .error e := by
+  unfold pyGetattr
+  cases name <;> simp only [ha] <;> try exact ⟨_, rfl⟩
+  cases o with
+  | inst c as => cases as with
+    | nil => exact ⟨_, rfl⟩
+    | cons => simp [emptyObj] at ho
+  | _ => exact ⟨_, rfl⟩
+
+theorem pyGetitem_empty {h : Heap} {a : Nat} {o : Obj} (ha : h[a]? = some o) (ho : emptyObj o = true)
+    (key : Val) : ∃ e, pyGetitem h (.ref a) key = .error e := by
+  unfold pyGetitem
+  simp only [ha]
+  cases o with
+  | dict c es =>
+    cases es with
+    | nil => simp only [dictLookup, List.find?_nil, Option.map_none]; split <;> exact ⟨_, rfl⟩
+    | cons => simp [emptyObj] at ho
+  | list c xs =>
+    cases xs with
+    | nil => simp only [pyIndex_nil]; split <;> exact ⟨_, rfl⟩
+    | cons => simp [emptyObj] at ho
+  | tuple c xs =>
+    cases xs with
+    | nil => simp only [pyIndex_nil]; split <;> exact ⟨_, rfl⟩
+    | cons => simp [emptyObj] at ho
+  | inst c as => exact ⟨_, rfl⟩
+  | set c xs => exact ⟨_, rfl⟩
+
+theorem applyHandler_empty {h : Heap} {a : Nat} {o : Obj} (ha : h[a]? = some o)
+    (ho : emptyObj o = true) (hn : String) (arg : Val) :
+    ∃ e, C01.applyHandler h hn (.ref a) arg = .error e := by
+  unfold C01.applyHandler
+  split
+  · exact pyGetitem_empty ha ho arg
+  · split
+    · unfold pySeqGet
+      split
+      · exact pyGetitem_empty ha ho _
+      · exact ⟨_, rfl⟩
+    · split
+      · exact pyGetattr_empty ha ho arg
+      · exact ⟨_, rfl⟩
+
+/-- every access step on a freshly created (empty) object fails -/
+theorem refAccess_empty {env : MEnv} {h : Heap} {a : Nat} {o : Obj} (ha : h[a]? = some o)
+    (ho : emptyObj o = true) (op : String) (arg : Val) (r : Except PyExc Val)
+    (hr : C01.refAccess env.t h op (.ref a) arg = some r) : ∃ e, r = .error e := by
+  unfold C01.refAccess at hr
+  split at hr
+  · injection hr with hr; subst hr; exact pyGetattr_empty ha ho arg
+  · split at hr
+    · injection hr with hr; subst hr; exact pyGetitem_empty ha ho arg
+    · split at hr
+      · cases hg : C01.getHandler env.t h (.ref a) with
+        | none => simp [hg] at hr
+        | some hn => simp [hg] at hr; subst hr; exact applyHandler_empty ha ho hn arg
+      · contradiction
+
+theorem children_empty {env : MEnv} {h : Heap} {a : Nat} {o : Obj} (ha : h[a]? = some o)
+    (ho : emptyObj o = true) : children env h (.ref a) = [] := by
+  unfold children
+  simp only [ha]
+  cases o with
+  | dict c es => cases es <;> simp_all [emptyObj]
+  | list c xs => cases xs <;> simp_all [emptyObj]
+  | tuple c xs => cases xs <;> simp_all [emptyObj]
+  | inst c as => cases as <;> simp_all [emptyObj]
+  | set c xs => simp [emptyObj] at ho
+
+theorem flattenN_nil (n : Nat) : flattenN n [] = .ok [] := by
+  induction n with
+  | zero => rfl
+  | succ n ih => simp [flattenN, flatten1, ih]
+
+theorem rebuilds_congr {h h' : Heap} {v : Val} (hv : ∀ a, v = .ref a → h'[a]? = h[a]?) :
+    rebuilds h' v = rebuilds h v := by
+  cases v with
+  | ref a => simp only [rebuilds, hv a rfl]
+  | _ => rfl
+
+end Glom.C11
+
+namespace Glom.C11
+open Glom Glom.Mut
+
+/-- `h'` still has every cell of `h` -/
+def Pres (h h' : Heap) : Prop := ∀ b, b < h.length → h'[b]? = h[b]?
+
+theorem Pres.refl (h : Heap) : Pres h h := fun _ _ => rfl
+
+theorem Pres.trans {a b c : Heap} (h1 : Pres a b) (h2 : Pres b c) (hl : a.length ≤ b.length) : Pres a c :=
+  fun x hx => by rw [h2 x (by omega), h1 x hx]
+
+theorem Pres.append (h : Heap) (ext : List Obj) : Pres h (h ++ ext) :=
+  fun b hb => by simp [List.getElem?_append_left hb]
+
+theorem frameAt_pres {h0 h h' : Heap} {a : Nat} (hf : FrameAt h h' (.ref a)) (ha : h0.length ≤ a)
+    (hp : Pres h0 h) : Pres h0 h' :=
+  fun b hb => by
+    rw [hf.2 b (by intro e; injection e with e; omega), hp b hb]
+
+theorem noScope_flag {env : MEnv} (hns : noScope env = true) (c : String) : env.flag c "scope" = false := by
+  unfold MEnv.flag
+  split
+  · rename_i fs hf
+    have := List.mem_of_find?_eq_some hf
+    simp only [noScope, List.all_eq_true] at hns
+    simpa using hns _ this
+  · rfl
+
+theorem noScope_isScope {env : MEnv} (hns : noScope env = true) (h : Heap) (c : Val) :
+    isScope env h c = false := by
+  unfold isScope
+  split
+  · split
+    · exact noScope_flag hns _
+    · rfl
+  · rfl
+
+/-- the model's `missing` branch: factory call, then the recursive Assign on the fresh object -/
+def tailRun (env : MEnv) (sref : Val) (kind : String) (fuel : Nat) (st : St) (rem : List Step) (v : Val) :
+    St × Except MErr Val :=
+  match callFactory kind st with
+  | (st1, .error e) => (st1, .error e)
+  | (st1, .ok fresh) => assignAux env false sref (.factory kind) fuel st1 fresh rem (.lit v)
+
+theorem reArgVal_ok {st : St} {v : Val} (h : rebuilds st.heap v = false) : reArgVal st v = (st, v) := by
+  simp [reArgVal, h]
+
+theorem valOK_rebuilds {h0 h : Heap} {v : Val} (hv : valOK h0 v = true) (hp : Pres h0 h) :
+    rebuilds h v = false := by
+  cases v with
+  | ref a =>
+    simp only [valOK, Bool.and_eq_true, decide_eq_true_eq, Bool.not_eq_true'] at hv
+    rw [rebuilds_congr (h := h0) (fun b hb => by injection hb with hb; subst hb; exact hp _ hv.1)]
+    exact hv.2
+  | _ => rfl
+
+end Glom.C11
